@@ -301,32 +301,28 @@ def repValues (env : Env) (table : List (String × List (String × Option (List 
 
 /-! #### Explicit exception lists of the table theorems (each entry is re-confirmed on the real code by every run) -/
 
-def wassersteinEstimators : List String := ["LinearWasserstein", "MLPWasserstein", "CategoricalWasserstein"]
-
 /-- Values that pass the table although they are outside the documented domain, and are rejected later inside
-    `fit` / the call by a ValueError/TypeError-family error. -/
+    `fit` / the call by a ValueError/TypeError-family error.
+    (Until /repo commits a3b5130, 42cc36b and 121f1b6 the list also held `Douglas(n_cuts=None)`, the seeds ≥ 2³² of the
+    DiscriminativeModel subclasses and the extra metric names / callables of the three *Wasserstein estimators.) -/
 def lateRejected : List (String × String × Value) :=
-  -- the *Wasserstein estimators take `PAIRWISE_DISTANCE_FUNCTIONS + precomputed | callable`; the WassersteinGEMINI
-  -- constructor called by `get_gemini()` inside `fit` only takes `PAIRED_DISTANCES + precomputed`
-  (wassersteinEstimators.flatMap fun o =>
-    [Value.str "haversine", .str "nan_euclidean", .func, .gemini "MMDGEMINI", .gemini "WassersteinGEMINI", .gemini "MI"].map
-      fun v => (o, "metric", v))
   -- scikit-learn's "array-like" test (`_is_arraylike_not_scalar`) lets a dict through (it has `__len__`);
   -- `check_array` / the body then rejects it
-  ++ [("draw_gmm", "loc", Value.dict), ("draw_gmm", "scale", .dict), ("draw_gmm", "pvals", .dict),
-      ("multivariate_student_t", "loc", .dict), ("multivariate_student_t", "scale", .dict),
-      ("print_kauri_tree", "feature_names", .dict)]
+  [("draw_gmm", "loc", Value.dict), ("draw_gmm", "scale", .dict), ("draw_gmm", "pvals", .dict),
+   ("multivariate_student_t", "loc", .dict), ("multivariate_student_t", "scale", .dict),
+   ("add_mlcl_constraint", "must_link", .dict), ("add_mlcl_constraint", "cannot_link", .dict),
+   ("print_kauri_tree", "feature_names", .dict)]
 
 /-- Documented values that the extracted table rejects.  Empty since /repo commit 42cc36b
     (`"random_state": ["random_state"]` on DiscriminativeModel; before it, `random_state=RandomState(…)` — documented
     "int, RandomState instance" — was rejected by every DiscriminativeModel subclass, DESIGN §8 row 12). -/
 def knownDeviations : List (String × String × Value) := []
 
-/-- Parameters the tables do not validate at all (no entry, or an entry under a key that names no parameter):
-    every out-of-domain value reaches the body of `fit` / the function. -/
-def unvalidated : List (String × String) :=
-  [("SparseMLPModel", "groups"), ("SparseMLPMMD", "groups"),
-   ("add_mlcl_constraint", "must_link"), ("add_mlcl_constraint", "cannot_link")]
+/-- Parameters the tables do not validate at all (no entry, or an entry under a key that names no parameter): every
+    out-of-domain value would reach the body of `fit` / the function.  Empty since /repo commits 12ea5d8
+    (`"groups": [list, None]` added to SparseMLPModel) and 37cb7b8 (`must-link`/`cannot-link` keys of
+    add_mlcl_constraint renamed to the parameter names). -/
+def unvalidated : List (String × String) := []
 
 end GemVerif.Spec.Constraints
 
